@@ -7,6 +7,11 @@ tier="${1:-quick}"; shift || true
 cd "$(dirname "$0")/.."
 root=$PWD
 seeds="$@"; [ -z "$seeds" ] && seeds=$(ls seeded)
+# OWN_SHARD=k/n: only every n-th seed, starting with the k-th (for sweeps run side by side)
+if [ -n "${OWN_SHARD:-}" ]; then
+  k=${OWN_SHARD%%/*}; n=${OWN_SHARD##*/}
+  seeds=$(echo $seeds | tr ' ' '\n' | awk -v k=$k -v n=$n 'NR % n == k % n')
+fi
 out="${OWN_OUT:-$root/selftest/own.tsv}"
 : > "$out"
 for s in $seeds; do
